@@ -84,6 +84,7 @@ class Result:
         cov = {"evaluations": self.evaluations, "distinct_nontrivial": len(self.nontrivial), "rule": self.rule,
                "samples": self.samples, "traces_validated_against_impl": self.traces,
                "distribution": dict(self.dist), "exhaustive": exhaustive}
+        cov["nontrivial_keys"] = sorted(self.nontrivial)[:20000] if getattr(self, "export_keys", False) else []
         cov.update(self.extra)
         return {"coverage": cov, "violations": self.violations, "mismatches": self.mismatches,
                 "generated_obligations": self.generated_obligations}
